@@ -523,12 +523,37 @@ func (p *Program) c06MappedMeansSlash() bool {
 	if len(rcs) != 1 {
 		return false
 	}
-	call, _ := asCall(rcs[0].Results[0])
-	if call == nil || !isCallTo(call.Common(), "strings.Contains") || !isStringConst(call.Common().Args[1], "/") {
+	subject, ok := c06ContainsSlash(rcs[0].Results[0])
+	if !ok {
 		return false
 	}
-	root, ok := p.pfFieldLoad(call.Common().Args[0], "Type")
+	root, ok := p.pfFieldLoad(subject, "Type")
 	return ok && p.pfRootValue(root) == ssa.Value(fn.Params[0])
+}
+
+// c06ContainsSlash: v is true exactly when string s contains '/': strings.Contains(s, "/"),
+// strings.ContainsRune(s, '/'), strings.ContainsAny(s, "/"), or strings.Index/IndexByte/IndexRune(s,
+// '/') compared with 0 / -1. Returns s.
+func c06ContainsSlash(v ssa.Value) (ssa.Value, bool) {
+	slash := func(a ssa.Value) bool {
+		if isStringConst(a, "/") {
+			return true
+		}
+		n, isInt := constInt(a)
+		return isInt && n == '/'
+	}
+	if call, _ := asCall(v); call != nil {
+		if isCallTo(call.Common(), "strings.Contains", "strings.ContainsRune", "strings.ContainsAny") && len(call.Common().Args) == 2 && slash(call.Common().Args[1]) {
+			return call.Common().Args[0], true
+		}
+		return nil, false
+	}
+	if x, trueMeansNegative, ok := pfNegativeTest(v); ok && !trueMeansNegative {
+		if call, _ := asCall(x); call != nil && isCallTo(call.Common(), "strings.Index", "strings.IndexByte", "strings.IndexRune") && len(call.Common().Args) == 2 && slash(call.Common().Args[1]) {
+			return call.Common().Args[0], true
+		}
+	}
+	return nil, false
 }
 
 // c06TypeCannotBeSucceeded decides whether a non-constant condition Type can be "Succeeded".
